@@ -934,6 +934,8 @@ fn addblock_attestation_count(b: &[u8]) -> Option<u32> {
 
 /// pseudo message name of the size-boundary fixed cases
 const SIZE_BOUNDARY: &str = "RemoveBlock@exact-size";
+/// pseudo message name of the dispatch-enum structure fixed case
+const DISPATCH_STRUCTURE: &str = "Message@dispatch-structure";
 
 pub struct C19;
 
@@ -1253,6 +1255,7 @@ impl Prop for C19 {
         [65_535u64, 65_536, 65_537, MAX_MESSAGE_SIZE as u64 - 1, MAX_MESSAGE_SIZE as u64]
             .iter()
             .map(|t| Case { msg: SIZE_BOUNDARY.to_string(), v: V::U(*t), mutations: vec![] })
+            .chain(std::iter::once(Case { msg: DISPATCH_STRUCTURE.to_string(), v: V::U(0), mutations: vec![] }))
             .collect()
     }
     fn min_nontrivial(&self, tier: Tier) -> usize {
@@ -1275,6 +1278,27 @@ impl Prop for C19 {
         // Size boundary cases (fixed cases): a message whose encoding has exactly the given size
         // (just below, at and above 64 KiB; just below and at the documented, inclusive maximum of
         // 128 KiB) survives the wire.
+        if case.msg == DISPATCH_STRUCTURE {
+            // the dispatch enum as parsed at build time: a variant that carries another message's
+            // struct makes that message decode as the other type; a message struct without a
+            // variant cannot be decoded through `Message` at all
+            st.class("dispatch-structure-checked");
+            st.nontrivial_shape(("dispatch-structure", gen::VARIANT_MISMATCH.len()));
+            if let Some((v, t)) = gen::VARIANT_MISMATCH.first() {
+                return ctx.report(st, Violation::new(
+                    "C19:message-enum:variant-carries-other-struct",
+                    format!("enum Message: variant {} carries struct {}: a {} encoding does not decode as a {} (all mismatches: {:?})", v, t, v, v, gen::VARIANT_MISMATCH),
+                ));
+            }
+            let orphans: Vec<_> = gen::STRUCTS_WITHOUT_VARIANT.iter().filter(|(n, _)| *n != "UnknownPlaceholder").collect();
+            if let Some((n, id)) = orphans.first() {
+                return ctx.report(st, Violation::new(
+                    "C19:message-enum:message-struct-without-variant",
+                    format!("message struct {} (type {}) has no variant in enum Message: its encoding cannot survive msgs::from_vec (all: {:?})", n, id, orphans),
+                ));
+            }
+            return Ok(());
+        }
         if case.msg == SIZE_BOUNDARY {
             use vls_protocol::msgs;
             use vls_protocol::serde_bolt::LargeOctets;
